@@ -8,12 +8,14 @@
    and Composite.filter_nz are instances, Theory.Series.filter_ok_id / filter_ok_nz).
    Division by integers: R is a Q-algebra, [divn_ok]: n * (v / n) = v for n >= 1.
 
-   What is NOT proved here (hence PARTIAL): the analytic limit  sum_j s^j/(2j)! = cosh(sqrt s) etc. over the
-   reals (C19_exp_formula reduces the claim to it), IEEE rounding, numpy/sympy functions, and that the
+   The analytic half of the exp clause is C19_exp_series_limit / C19_exp_power_series at the end (Coq's real
+   numbers; they use the standard-library axioms of Reals, listed by Print Assumptions).
+   What is NOT proved here (hence PARTIAL): IEEE rounding, numpy/sympy functions, complex coefficients and the
+   symbolic (sympy) class beyond the branch selection, and that the
    [o_sqrt]/[o_inv] of a concrete number type satisfy the hypotheses of the sqrt theorems (they are exactly
    the "Study number with positive scalar part" domain; the code checks none of them). *)
 From Coq Require Import Ring_theory ZArith List.
-From KV Require Import Model.All Model.Series Theory.WF Theory.Sparse Theory.Ops Theory.OpsWF Theory.Algebra Theory.Series.
+From KV Require Import Model.All Model.Series Theory.WF Theory.Sparse Theory.Ops Theory.OpsWF Theory.Algebra Theory.Series Theory.SeriesReal.
 Import ListNotations.
 Local Open Scope Z_scope.
 
@@ -264,3 +266,40 @@ Print Assumptions C19_exp_raises.
 Print Assumptions C19_exp_defined.
 Print Assumptions C19_exp_branch.
 Print Assumptions C19_exp_array_refuted.
+
+(* ---------- exp over the real numbers (standard-library Reals; v / j is real division) ---------- *)
+From Coq Require Import Reals.
+(* for every real s the (sqrt, cosh, sinhc) triple that MultiVector.exp selects for a python float s
+   (s > 0: sqrt, cosh, sinh(l)/l;  s = 0: 1, 1;  s < 0: sqrt(-s), cos, sinc) gives the limits of the two scalar
+   series  sum_j s^j/(2j)!  and  sum_j s^j/(2j+1)! *)
+Theorem C19_exp_series_limit : forall s : R,
+  let '(fsqrt, fcosh, fsinhc) := tf_real (exp_branch (classify_float s)) in
+  Un_cv (ev R 0%R 1%R Rplus Rmult Rdivn s) (fcosh (fsqrt s)) /\
+  Un_cv (od R 0%R 1%R Rplus Rmult Rdivn s) (fsinhc (fsqrt s)).
+Proof. exact exp_series_limit. Qed.
+(* hence, in every well-formed algebra, for a real x with x x = s the partial sums sum_{k<=2n+1} x^k/k! of the
+   power series converge blade by blade to cosh(l) + sinhc(l) x, the value MultiVector.exp assembles *)
+Theorem C19_exp_power_series : forall A, wf_alg A = true -> forall (x : mv R) (s : R),
+  wfmv A x ->
+  equiv 0%R 1%R Rplus Rmult Rminus Ropp (gp (mkOps R Rplus Rminus Rmult Ropp 0%R 1%R) A x x) (Algebra.scal Rmult s (Algebra.one 1%R)) ->
+  let '(fsqrt, fcosh, fsinhc) := tf_real (exp_branch (classify_float s)) in
+  forall K,
+    Un_cv (fun n => coeff (mkOps R Rplus Rminus Rmult Ropp 0%R 1%R) K
+                      (msum R 0%R 1%R Rplus Rmult Rminus Ropp A
+                         (map (pterm R 0%R 1%R Rplus Rmult Rminus Ropp Rdivn A x) (seq 0 (2 * n + 2)))))
+          (coeff (mkOps R Rplus Rminus Rmult Ropp 0%R 1%R) K
+             (E R 0%R 1%R Rplus Rmult Rminus Ropp A x (fcosh (fsqrt s)) (fsinhc (fsqrt s)))).
+Proof. intros A Hwf x s. exact (exp_power_series A (wf_sign_hyps A Hwf) x s). Qed.
+(* sqrt(x) * sqrt(x) = x for a real Study number x = a + bI, (bI)^2 = s, with positive scalar part a and
+   non-negative Study norm a^2 - s (automatic for s <= 0): the unchecked hypotheses of C19_sqrt_study hold *)
+Theorem C19_sqrt_study_real : forall A, wf_alg A = true -> forall F (x : mv R) (s : R),
+  Series.filter_ok R 0%R 1%R Rplus Rmult Rminus Ropp A F -> wfmv A x -> is_scalar_only x = false ->
+  let a := coeff RO 0 x in let bI := study_bI RSO F A x in
+  equiv 0%R 1%R Rplus Rmult Rminus Ropp (gp RO A bI bI) (Algebra.scal Rmult s (Algebra.one 1%R)) ->
+  mv_truthy (F (gp RO A bI bI)) = true ->
+  (0 < a)%R -> (0 <= a * a - s)%R ->
+  let y := sqrt_model_with RSO F A x in equiv 0%R 1%R Rplus Rmult Rminus Ropp (gp RO A y y) x.
+Proof. intros A Hwf F x s. exact (sqrt_study_real A (wf_sign_hyps A Hwf) F x s). Qed.
+Print Assumptions C19_exp_series_limit.
+Print Assumptions C19_exp_power_series.
+Print Assumptions C19_sqrt_study_real.
